@@ -39,6 +39,11 @@ def _lock(rng, p, **kw):
         d["ef"] |= rng.choice([0x0100, 0x0200, 0x1000])
     if rng.random() < p.get("waitunlock", 0):
         d["tf"] |= 0x0200
+    if rng.random() < p.get("data", 0.12):
+        # contains-data (0x20): a SET of a short payload rides on the request.  The lock clauses do not look at values; C17's
+        # "the keys' values are gone" and the census of recycled key records do.
+        pl = bytes(rng.randrange(97, 123) for _ in range(rng.randint(1, 12)))
+        d["data"] = (len(pl) + 2).to_bytes(4, "little").hex() + "0000" + pl.hex()
     d.update(kw)
     return d
 
